@@ -318,3 +318,6 @@ def run(run):
         else:
             run.bad("C09.M2", "contacts-unmerged", where(prog.bodies[cf]), "Vec<Contacts>::from(Span) is `%s`: the fragments that are grouped are not the merged ones" % (expr_str(r[0])[:140] if r else "?"))
     run.assume("is_collinear / Segment::contains_point float tolerances are not decided (long diagonals)")
+
+
+run_flow = run
